@@ -170,7 +170,8 @@ class MeshTet1(MeshSimplex, Mesh3D):
 
         # add noise so that there are no edges with the same length
         np.random.seed(1337)
-        p = p.copy() + 1e-10 * np.random.random(p.shape)
+        scale = np.max(np.ptp(p, axis=1)) if p.shape[1] > 0 else 1.
+        p = p.copy() + 1e-10 * scale * np.random.random(p.shape)
 
         l01 = np.sqrt(np.sum((p[:, t[0, marked]] - p[:, t[1, marked]]) ** 2,
                              axis=0))
